@@ -8,7 +8,11 @@ import TextxVerif.Load.History
  "inps":[{"input":"…","toks":[[len|-1…]…],"fuel":n}…],
  "hists":[[{"new":k} | {"load":k,"files":[inp index…],"buildFail":b,"fin":"ok|resolve|init|objproc|modelproc","j":n}…]…]}
 → {"runs":[{"outs":[null | {"parses":[…],"stores":[…],"phase":"…","i":n,"initSeq":[…]}…],
-            "hid":[{"cache":n,"bp":[[6 lengths]|null…],"instr":[…],"attrs":[…],"gp":[[debug,memo]…],"owner":k|null}…]}…]}
+            "hid":[{"cache":n,"bp":[[6 lengths]|null…],"instr":[…],"attrs":[…],"gp":[[debug,memo]…],"owner":k|null}…],
+            "walkOK":b}…]}
+The machine run is `realWalk`: memo caches are cleared as Arpeggio does it, by walking the parser model
+(`History.walkClear`); `walkOK` = the premise of `C16_walk_run` (walked repetitions have `Match` separators),
+under which this machine is the machine `real` of the history theorems.
 (every history is run from the state right after `import textx`; its first operations create the pool)
 parse outcome: {"ok":tree} | {"nomatch":pos} | {"err":"fuel"|"bad-model"}; tree as in Drivers/Peg.lean.
 
@@ -168,7 +172,7 @@ def runHistory (nodes : Array Node) (mmxs : List (Option MMx)) (inps : Array Inp
         { file := fun k r => { ok := !bf, dump := 0, allocs := userAllocs nodes (userOf k) r.tree,
                                stack := [], instances := [1], crossrefs := [] },
           final := fun _ _ _ => (fin, 0) }
-      let (o, H') := load real W sem k files H
+      let (o, H') := load realWalk W sem k files H
       H := H'
       let allocs := o.parses.map fun p => match p with
         | .tree t => userAllocs nodes (userOf k) t
@@ -178,7 +182,7 @@ def runHistory (nodes : Array Node) (mmxs : List (Option MMx)) (inps : Array Inp
         ("stores", toJson o.stores),
         ("initSeq", toJson (initSeq o.initCounts allocs))] ++ phaseJson o.phase))
     hids := hids.push (hidJson nslots H)
-  pure (Json.mkObj [("outs", Json.arr outs), ("hid", Json.arr hids)])
+  pure (Json.mkObj [("outs", Json.arr outs), ("hid", Json.arr hids), ("walkOK", toJson W.walkOK)])
 
 /-- {"op":"case", nodes, mms, inps, "hists":[[op…]…]} → {"runs":[{"outs","hid"}…]}; every history starts
 from the fresh state (its first operations create the pool) -/
